@@ -15,9 +15,9 @@ BASE = {
     "end": {"exit": 8, "exit_exc": 1, "kill": 1},
     "ops": {"add": 10, "remove": 6, "replace": 4, "set": 3, "reput": 1, "edit_restore": 1, "read_obs": 1, "read_w": 1,
             "read_twice": 0.3, "same_size_switch": 0.3, "reject_some": 0.5, "enospc": 0.0,
-            "reject_all": 0.0, "mode_matrix": 0.0, "decode_twice": 0.3, "copy": 0.2},
+            "reject_all": 0.0, "mode_matrix": 0.0, "decode_twice": 0.3, "copy": 0.2, "odd_size": 0.15},
     "between": {"scribble": 0.0, "read_obs": 0.3, "clobber": 0.05, "open_bad": 0.03, "copy": 0.1, "sig_flip": 0.02,
-                "truncated_decode": 0.0},
+                "truncated_decode": 0.0, "open_near": 0.02, "enospc_create": 0.01},
     "kinds": gen.KINDS,
     "opaque": 0.5,  # probability that a foreign file carries opaque blocks
     "big": 0.02,
@@ -51,7 +51,7 @@ def profile(prop):
         p["init"].update(capture=0.12)
         p["ops"].update(edit_restore=4)
         p["huge_cell"] = 0.1
-        p["ops"].update(read_w=2)
+        p["ops"].update(read_w=2, odd_size=3)
     elif prop == "C05":
         p["kinds"] = list(gen.SEGMENTED)
         p["ops"].update(decode_twice=6, add=8, replace=6, set=4, remove=3, edit_restore=6)
@@ -97,7 +97,7 @@ def profile(prop):
         p["session"] = {"w": 6, "fresh": 0.5, "ro": 4, "out": 0.2, "armed_out": 0.1, "stale": 0.2}
     elif prop == "C17":
         p["files"] = [2, 3, 3]
-        p["between"].update(clobber=2, open_bad=1, copy=2, sig_flip=1)
+        p["between"].update(clobber=2, open_bad=1, copy=2, sig_flip=1, open_near=0.8, enospc_create=0.6)
         p["ops"].update(copy=2)
         p["len"] = (6, 20)
     return p
@@ -359,6 +359,11 @@ class Gen:
             self.emit(op="decode_twice", f=f, poisons=ps)
         elif k == "copy":
             self.copy_op(f)
+        elif k == "odd_size":
+            kinds = [x for x in gen.SEGMENTED if x in self.p["kinds"] and TYPE_CODE[x] not in self.present[f]]
+            if kinds:
+                self.emit(op="odd_size", f=f, C=gen.block(rng, rng.choice(kinds), min_items=1),
+                          odd=rng.choice(("partial_nan", "partial_nan", "inf")), k=rng.randint(0, 50))
 
     def some_readers(self):
         rng = self.rng
@@ -412,6 +417,22 @@ class Gen:
                     self.emit(op="new", f=g)
                 else:
                     self.emit(op="copy", f=f, to=g)
+            elif k == "open_near":
+                self.emit(op="open_near", f=f, k=rng.randint(0, 15))
+            elif k == "enospc_create":
+                free = [g for g in range(4, 8) if not self.exists.get(g)]
+                if free:
+                    g = free[0]
+                    self.emit(op="enospc_create", f=g, src=f if rng.random() < 0.5 else None)
+                    self.exists[g] = "junk"
+                    free = [h for h in range(4, 8) if not self.exists.get(h)]
+                    if free and rng.random() < 0.8:  # and then a creation that has room
+                        if rng.random() < 0.6:
+                            self.emit(op="new", f=free[0])
+                            self.exists[free[0]] = "junk"  # nobody works on it afterwards
+                        else:
+                            self.emit(op="copy", f=f, to=free[0])
+                            self.exists[free[0]] = "junk"
             elif k == "open_bad":
                 junk = [g for g, v in self.exists.items() if v == "junk"]
                 g = rng.choice(junk) if junk and rng.random() < 0.6 else 9
